@@ -4,7 +4,8 @@ From EV Require Import Base.Bytes Base.Sha256 Model.FastMerkle Extract.RunUtil.
 Import ListNotations.
 
 Definition zero32 : bytes := repeat x00 32.
-Definition fmr256 (ls : list bytes) : bytes := fmr_ctr zero32 cmp256 ls.
+(* the code-shaped model (array, counter, fuelled loops); "overflow" can only be printed for more than 2^31 leaves *)
+Definition fmr256 (ls : list bytes) : bytes := match fmr_impl zero32 cmp256 ls with Some r => r | None => [] end.
 Definition fmr256_spec (ls : list bytes) : bytes := fmr_spec zero32 cmp256 ls.
 
 (* case: "C18 <hexlist of 32-byte leaves>"  ->  hex root *)
